@@ -133,6 +133,12 @@ def gen_case(rnd, tier, index):
             body += '&' + wbgen.split_addr(first)[1]
         spec['cells'].append({'a': f'{main}!{wbgen.rc_coord(40, 1)}', 'f': '=' + body,
                               'p': [first] if first else [], 'd': []})
+    long_chain = workload == 'acyclic' and index % 40 == 11
+    if long_chain:
+        # a deep model (a column of some hundred cells, each from the one above)
+        wbgen.add_long_chain_gadget(rnd, spec)
+        cfg['origin'] = 'nodata'
+        cfg['long_chain'] = True
     dag = wbgen.Dag(spec)
     if rnd.random() < 0.3:
         cfg['extra_data'] = rnd.choice((
@@ -148,12 +154,21 @@ def gen_case(rnd, tier, index):
     cur = {}
 
     with_deps = [a for a in consts if dag.deps.get(a)]
+    if long_chain:
+        # evaluations in address order only (sweep): a cold read of row 400 is deeper than the
+        # interpreter allows, which is not what is being checked here
+        consts = [a for a in consts if a != 'Bal!A1']
+        with_deps = ['Bal!B1'] * 3 + [a for a in with_deps if not a.startswith('Bal!')]
 
     def draw_set():
         a = rnd.choice(with_deps) if with_deps and rnd.random() < 0.7 else rnd.choice(consts)
         recent.append(a)
         if workload == 'cycle':
             v = round(rnd.uniform(-5, 5), 3)
+        elif a == 'Bal!B1':
+            # (a rate that overflows 480 rows down makes every row raise, and a failure that
+            # deep takes pycel minutes to report)
+            v = rnd.choice(dag.cell[a]['w'])
         elif rnd.random() < 0.5:
             v = hostile_value(rnd, allow_formula_text=formula_text)
         else:
@@ -164,6 +179,8 @@ def gen_case(rnd, tier, index):
     recent = []
 
     def draw_eval():
+        if long_chain:
+            return {'op': 'sweep', 'a': 'Bal!A1'}
         # prefer what the most recent writes can have changed
         if recent and rnd.random() < 0.6:
             deps = sorted(dag.descendants(recent[-1]))
@@ -225,8 +242,8 @@ def gen_case(rnd, tier, index):
                 if gating:
                     s['types'] = list(rnd.choice((['pkl', gtext], [gtext], ['pkl'])))
                 ops.append(s)
-            where = 'process' if rnd.random() < bud['process_share'] else rnd.choice(
-                ('same', 'thread', 'thread'))
+            where = 'process' if rnd.random() < bud['process_share'] and not long_chain else \
+                rnd.choice(('same', 'thread', 'thread'))
             if where == 'process' and rnd.random() < 0.4:
                 where = 'process-thread'
             post = []
@@ -244,7 +261,7 @@ def legalise(case):
     st = history.Static(case)
     ops = []
     for op in case.get('ops', []):
-        if op['op'] in ('set', 'eval') and op['a'] not in st.all:
+        if op['op'] in ('set', 'eval', 'sweep') and op['a'] not in st.all:
             continue
         if op['op'] == 'set' and wbgen.is_formula_cell(st.dag.cell[op['a']]):
             continue
@@ -422,7 +439,11 @@ def run_case(case):
                 break
             k = op['op']
             count('ops')
-            if k == 'eval':
+            if k == 'sweep':
+                out = _apply(model, op, dag)
+                events.append((i, 'sweep', out.get('exc')))
+                sig_items.append(('w',))
+            elif k == 'eval':
                 out = outcome_of(lambda: model.evaluate(op['a']))
                 events.append((i, 'eval', op['a'], out.get('v'), out.get('exc')))
                 sig_items.append(('e',))
@@ -556,7 +577,7 @@ def run_case(case):
                         pp = []
                         if unchanged:
                             for p in post:
-                                pp.append(_apply(lm, p))
+                                pp.append(_apply(lm, p, dag))
                         box['post'] = pp
                         if resave:
                             box['resave'] = outcome_of(lambda: lm.to_file(
@@ -606,7 +627,7 @@ def run_case(case):
                     if state['violation']:
                         break
                     # the same post-load history on the original
-                    orig_post = [_apply(model, p) for p in post]
+                    orig_post = [_apply(model, p, dag) for p in post]
                     if post:
                         changed_since_build = True
                     for p, oo, lo in zip(post, orig_post, loaded_post):
@@ -665,7 +686,10 @@ def _unchanged_since(ops, i, name):
     return False
 
 
-def _apply(model, p):
+def _apply(model, p, dag=None):
+    if p['op'] == 'sweep':
+        # every cell of the model in the order of the sheet (each read is shallow)
+        return outcome_of(lambda: tuple(model.evaluate(a) for a in dag.order if a in model.cell_map))
     if p['op'] == 'eval':
         return outcome_of(lambda: model.evaluate(p['a']))
     if p['a'] not in model.cell_map:
